@@ -318,7 +318,7 @@ def pure(kind, m=2, r=0, pool=None):
 # ------------------------------------------------------------------ sources
 
 class SubRec:
-    __slots__ = ("sub_seq", "sub_t", "disp_seq", "disp_t", "observer")
+    __slots__ = ("sub_seq", "sub_t", "disp_seq", "disp_t", "observer", "term_seq")
 
     def __init__(self, seq, t, observer):
         self.sub_seq = seq
@@ -326,6 +326,7 @@ class SubRec:
         self.disp_seq = None
         self.disp_t = None
         self.observer = observer
+        self.term_seq = None  # when the source delivered its terminal notification to this observer
 
     def open(self):
         return self.disp_seq is None
@@ -353,8 +354,10 @@ class SimSource(Observable):
             for t, k, v in self.events:
                 w.at(t, (lambda k=k, v=v: self._broadcast(k, v)), tie="hot")
 
-    def _emit(self, obs, k, v):
+    def _emit(self, obs, k, v, rec=None):
         w = self.w
+        if rec is not None and k in "CE" and rec.term_seq is None:
+            rec.term_seq = w.tick()
         try:
             if k == "N":
                 obs.on_next(v)
@@ -370,7 +373,7 @@ class SimSource(Observable):
     def _broadcast(self, k, v):
         for rec in list(self.live):
             if rec.open() or self.rogue:
-                self._emit(rec.observer, k, v)
+                self._emit(rec.observer, k, v, rec)
 
     def _subscribe_core(self, observer, scheduler=None):
         w = self.w
@@ -394,13 +397,13 @@ class SimSource(Observable):
         if self.kind == "sync":
             for t, k, v in self.events:
                 if rec.open() or self.rogue:
-                    self._emit(observer, k, v)
+                    self._emit(observer, k, v, rec)
             return Disposable(closed)
         ds = []
         for t, k, v in self.events:
             def fire(k=k, v=v):
                 if rec.open() or self.rogue:
-                    self._emit(observer, k, v)
+                    self._emit(observer, k, v, rec)
 
             ds.append(w._sched(w.now() + t, fire))
 
